@@ -168,10 +168,102 @@ def rule_depth(facts, cg):
     return r
 
 
+def rule_restore(facts, cg):
+    """temporary overrides of SessionConfig fields (constant written over a value that was saved first) are restored on
+    every exit; the `?` of a repeated get_prepared_by_name lookup is accepted as infeasible under a checked frame condition"""
+    r = RuleResult("C15-RESTORE", "temporary SessionConfig overrides are restored on every exit of the function", floor=1)
+    SESSION = "glaredb_core::engine::session::Session"
+    for rec in facts.fns_matching(lambda i: i.startswith(SESSION + "::")):
+        if "SessionConfig" not in str(rec["bbs"]):
+            continue
+        fn = Fn(rec)
+        writes = []
+        for b, i, pl, rv, ln in fn.assigns():
+            fl = [p for p in pl[1] if isinstance(p, list) and p[0] == "f"]
+            if len(fl) >= 2 and fl[-1][2].endswith("SessionConfig") and fl[-2][1] == "config":
+                writes.append((b, i, fl[-1][1], rv, ln))
+        by_field = {}
+        for w in writes:
+            by_field.setdefault(w[2], []).append(w)
+        for field, ws in by_field.items():
+            overrides = [w for w in ws if w[3][0] == "use" and w[3][1][0] == "k"]
+            restores = [w for w in ws if not (w[3][0] == "use" and w[3][1][0] == "k")]
+            # an override is "temporary" when the field was read (saved) in a block dominating it
+            for ob, oi, _, orv, oln in overrides:
+                saved = False
+                for b, i, pl, rv, ln in fn.assigns():
+                    if rv[0] == "use" and rv[1][0] in ("c", "m"):
+                        fl = [p for p in rv[1][1][1] if isinstance(p, list) and p[0] == "f"]
+                        if fl and fl[-1][1] == field and fl[-1][2].endswith("SessionConfig") and (fn.dominates(b, ob) or b == ob):
+                            saved = True
+                if not saved:
+                    continue
+                r.functions.add(fn.id)
+                rb = {w[0] for w in restores}
+                # DFS to exits avoiding restore blocks
+                seen, st, escapes = set(), list(fn.succ[ob]), []
+                prev = {}
+                while st:
+                    b = st.pop()
+                    if b in seen or b in rb:
+                        continue
+                    seen.add(b)
+                    if b in fn.exits:
+                        escapes.append(b)
+                        continue
+                    for s in fn.succ[b]:
+                        prev.setdefault(s, b)
+                        st.append(s)
+                bad = []
+                for e in escapes:
+                    # walk back to find the `?` (from_residual) whose residual comes from which call
+                    path, cur = [], e
+                    while cur in prev and cur != ob and len(path) < 400:
+                        path.append(cur)
+                        cur = prev[cur]
+                    culprit = None
+                    for b in path:
+                        tt = fn.term(b)
+                        if tt[0] == "call" and str(tt[1].get("def", "")).endswith("FromResidual::from_residual"):
+                            from .mir import Call
+                            c = Call(fn, b, tt)
+                            o = fn.origin(c.args[0], through_calls=("::branch",), at=b)
+                            if o[0] == "call":
+                                culprit = o[1]
+                    if culprit is not None and culprit.name.endswith("get_prepared_by_name"):
+                        # frame condition: the same lookup succeeded before the override and nothing reachable from the calls
+                        # in between writes Session.prepared
+                        earlier = [c for c in fn.calls() if c.name == culprit.name and c is not culprit and fn.dominates(c.bb, ob)]
+                        frame_ok = bool(earlier)
+                        if frame_ok:
+                            between = [c for c in fn.calls() if c.bb in fn.reach(earlier[0].bb) and culprit.bb in fn.reach(c.bb) and c.callee.get("local")]
+                            reach = cg.reachable({c.name for c in between} | {c.name + "::{closure#0}" for c in between})
+                            for n in reach:
+                                rec2 = facts.fn(n)
+                                if rec2 and "prepared" in str(rec2["bbs"]):
+                                    f2 = Fn(rec2)
+                                    for b2, i2, pl2, rv2, ln2 in f2.assigns():
+                                        if any(isinstance(p, list) and p[0] == "f" and p[1] == "prepared" and p[2].endswith("::Session") for p in pl2[1]):
+                                            frame_ok = False
+                                        if rv2[0] == "ref" and rv2[1] and any(isinstance(p, list) and p[0] == "f" and p[1] == "prepared" and p[2].endswith("::Session") for p in rv2[2][1]):
+                                            frame_ok = False
+                        if frame_ok:
+                            r.exempt(f"{fn.id} {field}", "the error edge of the repeated get_prepared_by_name lookup is infeasible: the same lookup succeeded at function entry and no "
+                                     "function reachable from the calls in between writes Session.prepared (frame condition checked on this run)")
+                            continue
+                    bad.append((e, culprit.name if culprit else "return"))
+                ok = not bad
+                r.inst({"fn": fn.id, "field": field, "override_line": oln, "restore_writes": len(restores), "unrestored_exits": [x[1].rsplit("::", 1)[-1] for x in bad]}, ok)
+                if not ok:
+                    r.violate(fn.id, f"override:{field}", f"`config.{field}` is overridden temporarily but an exit through {sorted({x[1].rsplit('::', 1)[-1] for x in bad})} skips the restore: "
+                              "after a failed statement the session keeps the overridden setting", rec["file"], oln)
+    return r
+
+
 def run(ctx):
     facts = ctx["facts"]
     cg = CallGraph(facts)
-    return [rule_unimpl(facts, cg), rule_depth(facts, cg)]
+    return [rule_unimpl(facts, cg), rule_depth(facts, cg), rule_restore(facts, cg)]
 
 
 CLAIM = {
